@@ -377,7 +377,20 @@ fn merge_ok(m: &mut Merged, space: usize, v: &Value, dig: Vec<u64>) {
     m.alloc_calls += v["alloc_calls"].as_u64().unwrap_or(0);
     if let Some(e) = v["extra"].as_object() {
         for (k, val) in e {
-            // numeric extras are summed, everything else keeps the first value
+            // numeric extras are summed ("max_*": maximum), everything else keeps the first value
+            if k.starts_with("max_") {
+                let old = m.extra.get(k).and_then(|x| x.as_u64()).unwrap_or(0);
+                if val.as_u64().unwrap_or(0) >= old {
+                    m.extra.insert(k.clone(), val.clone());
+                    if let Some(w) = e.get(&format!("{}_what", k)) {
+                        m.extra.insert(format!("{}_what", k), w.clone());
+                    }
+                }
+                continue;
+            }
+            if k.ends_with("_what") {
+                continue;
+            }
             match (m.extra.get(k).and_then(|x| x.as_u64()), val.as_u64()) {
                 (Some(a), Some(b)) => {
                     m.extra.insert(k.clone(), json!(a + b));
